@@ -133,4 +133,13 @@ PROPS = {
                 "handler time bound to the vrt virtual clock, ResponseWriter records the virtual instant of every Write",
         "assumptions": ["zero-time computation: only sleeps and client stalls advance the clock", "the chunk end is compared on the millisecond grid of the clock (floor)"],
     },
+    "C11": {
+        "parts": [{"pkg": "livesim", "test": "TestVerifC11", "gen": True}, {"pkg": "patch", "test": "TestVerifC11D"}],
+        "clauses": ["C11.loc", "C11.same", "C11.apply", "C11.diff"],
+        "level": "model_checking",
+        "rule": "handler level: patch_{10,60} x {Timeline-Time, Timeline-Number} x {one period, periods_60} x tsbd {60,7} x start {0,1.7e9+40} x assets incl. 2.002 s, 1.5 s and 4/8 s segments: "
+                "all pairs t1<=t2 of availability instants (+-1 ms) within ttl + 2 segments; diff level: every tree reachable by <=1 (quick) / <=2 (thorough) edits from a family of id-carrying MPD-like trees; "
+                "oracle: independent RFC 5261 applier, canonical XML equality",
+        "assumptions": ["an <add> whose selector ends in /@name is read as an attribute addition", "pairs whose MPD(t1) is not the document identified by its publishTime are classified as consequences of the C05 finding (stale-base)"],
+    },
 }
